@@ -142,6 +142,7 @@ def tasks(tier, seed):
         T.append(('diag', M, 'imex'))
         if M >= 2:
             T.append(('diag', M, 'implicit', True))
+            T.append(('diag', M, 'implicit', False, 0.25))  # the same sweeper applied again after the step size of its level changed
     for nm in ('AdamsBashforthExplicit1Step', 'BackwardEuler', 'AdamsMoultonImplicit1Step', 'AdamsMoultonImplicit2Step'):
         T.append(('multistep', nm))
     T.append(('tables',))
@@ -171,7 +172,7 @@ def run_task(rep, task):
     elif task[0] == 'diag':
         from harness.c02_rk import diag_case
 
-        diag_case(rep, task[1], task[2], reconf=(len(task) > 3 and bool(task[3])))
+        diag_case(rep, task[1], task[2], reconf=(len(task) > 3 and bool(task[3])), dt_first=(task[4] if len(task) > 4 else None))
     elif task[0] == 'multistep':
         from harness.c02_rk import multistep_case
 
